@@ -10,15 +10,17 @@ Import ListNotations.
 Local Close Scope Q_scope.
 Local Open Scope nat_scope.
 
-(** case analysis on every test the two sides make, closing contradictory combinations *)
+(** case analysis on every test the two sides make — atomic tests first, so that both sides see the same answer —
+    closing contradictory combinations; robust to the ORDER in which the source makes its tests *)
 Ltac crush :=
   repeat (cbn in *; try discriminate; try congruence;
     match goal with
     | |- ?x = ?x => reflexivity
-    | |- context [negb ?c] => destruct c eqn:?
-    | |- context [texpand ?s ?w] => destruct (texpand s w) eqn:?
-    | |- context [match tzip2 ?f ?a ?b with _ => _ end] => destruct (tzip2 f a b)
-    | |- context [of_res (rmap _ ?r)] => destruct r as [?|[]] eqn:?
+    | |- context [shape_eqb ?a ?b] => destruct (shape_eqb a b) eqn:?
+    | |- context [tensor_eqb ?f ?a ?b] => destruct (tensor_eqb f a b) eqn:?
+    | |- context [texpand ?s ?w] => destruct (texpand s w) as [?|[]] eqn:?
+    | |- context [tzip2 ?f ?a ?b] => destruct (tzip2 f a b) eqn:?
+    | |- context [mk_weightedN ?v ?w] => unfold mk_weightedN
     | |- context [if ?c then _ else _] => destruct c eqn:?
     | |- context [match ?c with _ => _ end] => destruct c eqn:?
     end).
@@ -49,7 +51,7 @@ Theorem gen_weighted_value : forall op t, call op src_weighted_value [VWT t] = S
 Proof. intros op [v [w|]]; unfold call; cbn; reflexivity. Qed.
 
 Theorem gen_valued : forall op t v, call op src_valued [VWT t; VTen v] = of_res (rmap VWT (valued t v)).
-Proof. intros op [v0 [w|]] v; unfold call, valued; cbn; crush. Qed.
+Proof. intros op [v0 [w|]] v; unfold call, valued; crush. Qed.
 
 Theorem gen_map : forall op t fv fw fill,
     call op src_map [VWT t; VFun fv fw; sval_of_fill fill; VNone; VNone] = of_res (rmap VWT (wmap fv fill t)).
